@@ -31,11 +31,12 @@ type PkgSpec struct {
 	HasTag  bool     `json:"tag,omitempty"`   // file variant selected by build tag "alt"
 	HasX    bool     `json:"x,omitempty"`     // string variable overridable with -X
 	Embed   bool     `json:"embed,omitempty"` // //go:embed data file
+	CDef    bool     `json:"cdef,omitempty"`  // LLGoFiles = "$C13_CDEF: ..." - the C file is compiled with flags taken from an environment variable
 	Ext     bool     `json:"ext,omitempty"`   // lives in a second module (c13ext) that the main module requires at v1.0.0 and replaces by a local directory
 }
 
 type Step struct {
-	K       string `json:"k"`   // edit-src edit-src-same edit-c edit-embed tag x abi env repro build noop clear crash fserr
+	K       string `json:"k"`   // edit-src edit-src-same edit-c edit-embed tag x abi env cenv repro build noop clear crash fserr
 	Pkg     int    `json:"pkg"` // package index for edits
 	Arg     int    `json:"arg,omitempty"`
 	Torn    bool   `json:"torn,omitempty"`
@@ -79,7 +80,7 @@ func battery(clock string, embed, ext bool) *Scenario {
 		{Name: "p0", Imports: []string{"p1", "p3"}, HasTag: true},
 		{Name: "p1", Imports: []string{"p2"}},
 		{Name: "p2", Imports: []string{"p3"}, HasC: true, TwoC: true, LinkLib: haveBz2},
-		{Name: "p3", HasC: true, Embed: embed, Ext: ext},
+		{Name: "p3", HasC: true, CDef: true, Embed: embed, Ext: ext},
 	}
 	b := Step{K: "build"}
 	sc.Steps = []Step{{K: "crash", Pkg: 2, Target: "lib-manifest"}, b, // the very first build dies between the archive and the manifest of the link-argument package
@@ -99,6 +100,8 @@ func battery(clock string, embed, ext bool) *Scenario {
 		{K: "abi", Arg: 2}, {K: "env", Arg: 1}, b, // LLGO_TRACE=1: every function announces itself; all packages must be recompiled
 		{K: "edit-src-same", Pkg: 3}, b,
 		{K: "env", Arg: 0}, b, // and back: the traced archives must not be reused
+		{K: "cenv", Arg: 3}, b, // the environment variable in p3's LLGoFiles compile flags changes what its C file computes
+		{K: "cenv", Arg: 0}, b,
 	}
 	if embed {
 		sc.Steps = append(sc.Steps, Step{K: "edit-embed", Pkg: 3}, b)
@@ -127,6 +130,7 @@ func (prop) Generate(rng *sim.Rng, tier string, runIndex int) driver.Scenario {
 		p.HasC = rng.Intn(3) == 0
 		p.TwoC = p.HasC && rng.Intn(2) == 0
 		p.LinkLib = p.HasC && haveBz2 && rng.Intn(2) == 0
+		p.CDef = p.HasC && rng.Intn(2) == 0
 		p.HasTag = rng.Intn(3) == 0
 		p.HasX = false // no command-line path to -X string overrides exists at this commit
 		p.Embed = embedWorld && rng.Intn(2) == 0
@@ -192,8 +196,10 @@ func (prop) Generate(rng *sim.Rng, tier string, runIndex int) driver.Scenario {
 			st = Step{K: "noop"}
 		case r == 12:
 			st = Step{K: "clear"}
-		case r == 15 && rng.Intn(2) == 0:
+		case r == 15 && rng.Intn(3) == 0:
 			st = Step{K: "env", Arg: rng.Intn(2)}
+		case r == 15 && rng.Intn(2) == 0:
+			st = Step{K: "cenv", Arg: rng.Intn(4)}
 		case r == 15:
 			st = Step{K: "repro"}
 		case r == 13 || r == 14:
@@ -246,6 +252,7 @@ type world struct {
 	tag   bool
 	abi   int
 	trace bool  // LLGO_TRACE=1
+	cdef  int   // C13_CDEF=-DC13K=<cdef> (0: variable unset)
 	clock int64 // simulated file-time clock (unix ns)
 	log   []string
 	keep  bool
@@ -286,7 +293,11 @@ func (w *world) line(i int) string {
 	p, s := w.sc.Pkgs[i], w.st[i]
 	parts := []string{p.Name, fmt.Sprintf("src=v%04d", s.srcVer), "aux=23"}
 	if p.HasC {
-		parts = append(parts, fmt.Sprintf("c=%d", s.cVal))
+		c := s.cVal
+		if p.CDef {
+			c += 100 * w.cdef
+		}
+		parts = append(parts, fmt.Sprintf("c=%d", c))
 	}
 	if p.TwoC {
 		parts = append(parts, fmt.Sprintf("c2=%d", s.c2Val))
@@ -373,6 +384,10 @@ func (w *world) writePkg(i int) {
 		files := "_wrap/w.c"
 		if p.TwoC {
 			files = "_wrap/w.c; _wrap/w2.c"
+		}
+		if p.CDef {
+			// compile flags from the environment, as in "$(pkg-config --cflags x): file.c"
+			files = "$C13_CDEF: " + files
 		}
 		fmt.Fprintf(&sb, "const (\n\tLLGoFiles   = \"%s\"\n\tLLGoPackage = \"link\"\n)\n\n//go:linkname cval C.%s_cval\nfunc cval() int32\n\n", files, p.Name)
 		if p.TwoC {
@@ -474,6 +489,9 @@ func auxSum() int {
 func (w *world) cSource(i int) string {
 	p := w.sc.Pkgs[i]
 	src := fmt.Sprintf("int %s_cval(void) { return %d; }\n", p.Name, w.st[i].cVal)
+	if p.CDef {
+		src = fmt.Sprintf("#ifndef C13K\n#define C13K 0\n#endif\nint %s_cval(void) { return %d + 100 * C13K; }\n", p.Name, w.st[i].cVal)
+	}
 	return src
 }
 
@@ -579,6 +597,9 @@ func (w *world) build(crashAt int, fserr int, torn bool, match ...string) buildR
 	cmd.Env = append(w.baseEnv(w.cache), "VERIF_OPLOG="+oplog)
 	if w.trace {
 		cmd.Env = append(cmd.Env, "LLGO_TRACE=1")
+	}
+	if w.cdef > 0 {
+		cmd.Env = append(cmd.Env, fmt.Sprintf("C13_CDEF=-DC13K=%d", w.cdef))
 	}
 	if len(match) > 0 && match[0] != "" {
 		if strings.HasPrefix(match[0], "fserr:") {
@@ -702,6 +723,9 @@ func (w *world) irBuild(k int) (map[string][]byte, string) {
 	cmd.Env = append(w.baseEnv(cache), "TMPDIR="+tmp)
 	if w.trace {
 		cmd.Env = append(cmd.Env, "LLGO_TRACE=1")
+	}
+	if w.cdef > 0 {
+		cmd.Env = append(cmd.Env, fmt.Sprintf("C13_CDEF=-DC13K=%d", w.cdef))
 	}
 	out, _ := cmd.CombinedOutput() // with LLVM 14 the textual round trip of some packages fails after their .ll was written
 	files, _ := filepath.Glob(filepath.Join(tmp, "*.ll"))
@@ -838,6 +862,11 @@ func (prop) Run(scx driver.Scenario, ch *sim.Choices, keep bool) *driver.Result 
 			lastEdit, sameMtime = st.K, false
 			res.Probes["env-LLGO_TRACE-changes"]++
 			w.logf("step %d: LLGO_TRACE=%v", si, w.trace)
+		case "cenv":
+			w.cdef = st.Arg
+			lastEdit, sameMtime = st.K, false
+			res.Probes["env-C-flag-variable-changes"]++
+			w.logf("step %d: C13_CDEF=-DC13K=%d (environment variable expanded in a package's LLGoFiles compile flags)", si, w.cdef)
 		case "repro":
 			a, la := w.irBuild(1)
 			b, lb := w.irBuild(2)
@@ -1100,7 +1129,7 @@ func (prop) Shrink(scx driver.Scenario) []driver.Scenario {
 
 func (prop) Describe() driver.Description {
 	return driver.Description{
-		Rule: "a case is one history of 3-12 steps (edit one build input - Go source same/different size, C side file, embedded file, build tag, ABI mode, LLGO_TRACE - rebuild, two-process intermediate-code comparison, no-op rebuild, cache clear, build killed at cache operation k, disk error at cache operation k) on a generated module of 2-6 packages with a private build cache and a simulated file-time clock (normal, stalled, backwards, coarse); each build runs the real llgo and the built program; non-trivial: at least two builds; distinct = distinct hash of the (step, program output) sequence",
+		Rule: "a case is one history of 3-12 steps (edit one build input - Go source same/different size, C side file, embedded file, build tag, ABI mode, LLGO_TRACE, an environment variable expanded in a package's LLGoFiles compile flags - rebuild, two-process intermediate-code comparison, no-op rebuild, cache clear, build killed at cache operation k, disk error at cache operation k) on a generated module of 2-6 packages with a private build cache and a simulated file-time clock (normal, stalled, backwards, coarse); each build runs the real llgo and the built program; non-trivial: at least two builds; distinct = distinct hash of the (step, program output) sequence",
 		Components: []driver.Component{
 			{Name: "llgo (cmd/llgo, internal/build, cl, ssa, runtime)", Real: true, What: "built from the working tree at every check"},
 			{Name: "internal/build cache.go, collect.go, createArchiveFile", Real: true, What: "file-system calls routed through a counting seam supplied by go build -overlay (kill / fail at operation k); logic unchanged"},
